@@ -35,16 +35,6 @@ theorem ordinal_len_eq_dim (l : Int) (vs : List Int) (idx : List Nat) (fwd : Opt
 /-- coordinate `k` of a linear axis -/
 def coord (off samp : Rat) (k : Nat) : Rat := off + k * samp
 
-/-- a forward slice `start::step` of a linear axis is the linear axis whose `k`-th coordinate is the coordinate of the
-selected item `start + k·step` (metadata of the selected items is carried along) -/
-theorem linear_slice_coordinates (t : Int) (off samp : Rat) (idx : List Nat) (start step : Nat) (k : Nat) :
-    ∃ off' samp', axisGet (.linear t off samp) idx (some ((start : Int), (step : Int))) = .linear t off' samp' ∧
-      coord off' samp' k = coord off samp (start + k * step) := by
-  refine ⟨off + (start : Int) * samp, samp * (step : Int), by simp [axisGet], ?_⟩
-  simp only [coord]
-  push_cast
-  ring
-
 theorem axesFit_nil (as : List Axis) : axesFit as [] = true := by
   cases as <;> simp [axesFit]
 
@@ -83,6 +73,7 @@ theorem selectAxes_fit : (sels : List Sel) → (axes : List Axis) → (dims : Li
       | other t => simp [axisGet, axesFit, ih]
       | unknown => simp [axisGet, axesFit, ih]
       | linear t off samp => cases fwd <;> simp [axisGet, axesFit, ih]
+      | ordinalQ l vs => simp [axisGet, axesFit, ih]
   | .newaxis :: ss, a :: as, dims, md, hu, h => by
       simp only [nonesUnknown, Bool.and_eq_true, beq_iff_eq] at hu
       have ih := selectAxes_fit ss as dims md hu.2 (by simpa using h)
@@ -175,9 +166,7 @@ theorem getItems_aligned (o o' : Obj) (items : List Item) (k : Bool) (h : getIte
   · simp at h
   · split at h
     · simp at h
-    · split at h
-      · simp at h
-      · exact ((check_ok_iff _ _).mp h).2 ▸ ((check_ok_iff _ _).mp h).1
+    · exact ((check_ok_iff _ _).mp h).2 ▸ ((check_ok_iff _ _).mp h).1
 
 /-! ### reductions (after fix 79236f6f) -/
 
@@ -217,6 +206,14 @@ theorem keepAxes_fit : (as : List Axis) → (ns : List Nat) → (i : Nat) → (a
         simp only [axesFit] at h
         have ih := keepAxes_fit as ns (i + 1) ax h
         by_cases hc : i ∈ ax <;> simp [keepAxes, keepShape, hc, axesFit, ih]
+      | ordinalQ l vs =>
+        simp only [axesFit, Bool.and_eq_true, beq_iff_eq] at h
+        have ih := keepAxes_fit as ns (i + 1) ax h.2
+        by_cases hc : i ∈ ax
+        · by_cases hv : vs.length = 1
+          · simp [keepAxes, keepShape, hc, hv, axesFit, ih]
+          · simp [keepAxes, keepShape, hc, hv, axesFit, ih]
+        · simp [keepAxes, keepShape, hc, axesFit, ih, h.1]
 
 /-- without `keepdims` the metadata of the removed dimensions is removed with them -/
 theorem dropAt_fit : (as : List Axis) → (ns : List Nat) → (i : Nat) → (ax : List Nat) →
@@ -293,7 +290,7 @@ theorem keepdims_slice_selects_the_item (i : Int) (n j : Nat) (h : intIndex i n 
     cases n with
     | zero => exfalso; omega
     | succ m => exact ⟨m, rfl⟩
-  unfold sliceIndices
+  unfold sliceIndices sliceStart
   have h10 : ((1 : Int) == 0) = false := rfl
   simp only [Option.getD_none, h10, Bool.false_eq_true, if_false]
   rcases hcases with ⟨h0, hlt, hj⟩ | ⟨hneg, hge, hj⟩
@@ -617,8 +614,6 @@ theorem getItems_never_misaligned (o : Obj) (items : List Item) (hwf : WF o = tr
   · simp [hell, failsRuntime]
   · rw [if_neg hell, if_neg (by omega)]
     simp only
-    split
-    · rfl
     · cases hr : resolve items (o.shape.take (o.shape.length - o.baseDims)) with
       | error e =>
         have := resolve_no_runtime items (o.shape.take (o.shape.length - o.baseDims))
@@ -629,38 +624,87 @@ theorem getItems_never_misaligned (o : Obj) (items : List Item) (hwf : WF o = tr
         exact check_wf_not_runtime _ (getItems_result_wf o items sels _ _ hwf (by rw [← hens]; exact hn) hr)
 
 
-/-! ### recorded defects of the current tree (negation witnesses; replayed by the harness under specific keys) -/
+/-! ### linear ensemble axes: the coordinates of the selected items are carried along (after fix 85926b4f…) -/
 
-/-- A slice with a negative start (or a negative step) of a linear ensemble axis falls back to a plain copy of the axis
-metadata (`LinearAxis.__getitem__` raises TypeError for anything but forward slices): the coordinates of the result are
-not those of the selected items.  Here `obj[-2:]` on a 3-item axis with coordinates 0, 1, 2 selects the items 1, 2 but
-keeps offset 0. -/
-theorem negative_start_slice_linear_axis_copied_counterexample :
-    ¬ (∀ (o o' : Obj) (a b c : Option Int) (t : Int) (off samp off' samp' : Rat) (idx : List Nat),
-        o.ens = [.linear t off samp] → getItems o [.slice a b c] false = .ok o' → o'.ens = [.linear t off' samp'] →
-        sliceIndices a b c (o.shape.headD 0) = .ok idx →
-        ∀ k, k < idx.length → coord off' samp' k = coord off samp (idx.getD k 0)) := by
-  intro h
-  have := h ⟨[.linear 7 0 1], 0, [3], [0, 1, 2], []⟩ ⟨[.linear 7 0 1], 0, [2], [1, 2], []⟩ (some (-2)) none none 7 0 1 0 1 [1, 2]
-    rfl (by decide) rfl (by decide) 0 (by decide)
-  revert this
-  simp [coord]
+theorem pyRange_getD (e st : Int) (hst : st > 0) : (fuel : Nat) → (s : Int) → (k : Nat) →
+    k < (pyRange s e st fuel).length → (pyRange s e st fuel).getD k 0 = s + k * st
+  | 0, s, k, h => by simp [pyRange] at h
+  | fuel + 1, s, k, h => by
+      unfold pyRange at h ⊢
+      by_cases hc : (decide (st > 0) && decide (s < e) || decide (st < 0) && decide (s > e)) = true
+      · simp only [hc, if_true] at h ⊢
+        cases k with
+        | zero => simp
+        | succ k =>
+          simp only [List.length_cons, Nat.add_lt_add_iff_right] at h
+          simp only [List.getD_cons_succ]
+          rw [pyRange_getD e st hst fuel (s + st) k h]
+          push_cast; ring
+      · simp only [hc] at h; simp at h
 
-/-- NumPy's rule for an integer and an index list separated by a slice: the broadcast dimension of the advanced
-indices comes FIRST in the result (`a[0, :, [0, 0]]` has shape `(2, n1)`), while the metadata is selected item by item
-(`selShape`: `(n1, 2)`). -/
-def numpyIntSliceListShape (n1 listLen : Nat) : List Nat := [listLen, n1]
+theorem sliceStart_nonneg (a c : Option Int) (n : Nat) (hstep : c.getD 1 ≥ 1) : 0 ≤ sliceStart a c n := by
+  unfold sliceStart
+  have : ¬ (c.getD 1 < 0) := by omega
+  cases a with
+  | none => simp [this]
+  | some x =>
+    simp only [this, decide_false, Bool.false_eq_true, if_false]
+    split <;> split <;> omega
 
-/-- … so for `obj[0, :, [0, 0]]` the item-by-item metadata does not fit the array NumPy returns (the constructor then
-raises RuntimeError for ordinal axes; dask, which keeps the item order, returns different values than NumPy). -/
-theorem int_list_separated_misaligned_counterexample :
-    ¬ (∀ (ens : List Axis) (sels : List Sel) (n1 : Nat), axesFit ens [1, n1, 2] = true →
-        sels = [.drop 0, .keep (List.range n1) none, .keep [0, 0] none] →
-        axesFit (selectAxes sels ens []).1 (numpyIntSliceListShape n1 2) = true) := by
-  intro h
-  have := h [.other 1, .ordinal 2 [5, 6, 7], .ordinal 3 [8, 9]] _ 3 (by decide) rfl
-  revert this
-  decide
+/-- the k-th item selected by a slice with positive step is `start + k·step`, `start` being the normalised start -/
+theorem sliceIndices_getD (a b c : Option Int) (n : Nat) (idx : List Nat) (hstep : c.getD 1 ≥ 1)
+    (h : sliceIndices a b c n = .ok idx) (k : Nat) (hk : k < idx.length) :
+    ((idx.getD k 0 : Nat) : Int) = sliceStart a c n + k * c.getD 1 := by
+  unfold sliceIndices at h
+  have h0 : (c.getD 1 == 0) = false := by
+    simp only [beq_eq_false_iff_ne, ne_eq]; omega
+  simp only [h0, Bool.false_eq_true, if_false, Except.ok.injEq] at h
+  subst h
+  simp only [List.length_map] at hk
+  have hp := pyRange_getD _ (c.getD 1) (by omega) (n + 1) (sliceStart a c n) k hk
+  have hs := sliceStart_nonneg a c n hstep
+  rw [List.getD_eq_getElem?_getD, List.getElem?_map]
+  rw [List.getD_eq_getElem?_getD] at hp
+  cases hg : (pyRange (sliceStart a c n) _ (c.getD 1) (n + 1))[k]? with
+  | none =>
+    have := List.getElem?_eq_none_iff.mp hg
+    omega
+  | some v =>
+    rw [hg] at hp
+    simp only [Option.getD_some] at hp
+    simp only [Option.map_some, Option.getD_some]
+    have hv : 0 ≤ v := by
+      rw [hp]
+      have : (0 : Int) ≤ (k : Int) * c.getD 1 := Int.mul_nonneg (Int.natCast_nonneg k) (by omega)
+      omega
+    rw [Int.toNat_of_nonneg hv, hp]
+
+/-- SLICES OF LINEAR AXES CARRY THE COORDINATES OF THE SELECTED ITEMS.  For any slice with positive step (any start and
+stop, negative or out of range), the result axis is linear and its k-th coordinate is the coordinate of the k-th selected
+item of the source axis. -/
+theorem linear_forward_slice_coordinates (t : Int) (off samp : Rat) (a b c : Option Int) (n : Nat) (idx : List Nat)
+    (hstep : c.getD 1 ≥ 1) (h : sliceIndices a b c n = .ok idx) (k : Nat) (hk : k < idx.length) :
+    ∃ off' samp', axisGet (.linear t off samp) idx (some (sliceStart a c n, c.getD 1)) = .linear t off' samp' ∧
+      coord off' samp' k = coord off samp (idx.getD k 0) := by
+  refine ⟨off + (sliceStart a c n) * samp, samp * (c.getD 1), by simp [axisGet], ?_⟩
+  have hi := sliceIndices_getD a b c n idx hstep h k hk
+  simp only [coord]
+  have : ((idx.getD k 0 : Nat) : Rat) = ((sliceStart a c n + k * c.getD 1 : Int) : Rat) := by
+    rw [← hi]; simp
+  rw [this]
+  push_cast
+  ring
+
+/-- index lists and backward slices: the result is the ordinal axis whose k-th value is the coordinate of the k-th
+selected item -/
+theorem linear_list_coordinates (t : Int) (off samp : Rat) (idx : List Nat) (k : Nat) (hk : k < idx.length) :
+    ∃ vals, axisGet (.linear t off samp) idx none = .ordinalQ t vals ∧ vals.length = idx.length ∧
+      vals.getD k 0 = coord off samp (idx.getD k 0) := by
+  refine ⟨idx.map fun (i : Nat) => off + ((i : Int) : Rat) * samp, by simp [axisGet], by simp, ?_⟩
+  rw [List.getD_eq_getElem?_getD, List.getElem?_map, List.getD_eq_getElem?_getD]
+  have : idx[k]? = some idx[k] := List.getElem?_eq_getElem hk
+  simp [this, coord]
+
 
 /-! ### non-vacuity -/
 example : getItems ⟨[.ordinal 1 [10, 20, 30], .other 5], 1, [3, 2, 2], (List.range 12).map Int.ofNat, []⟩
